@@ -721,3 +721,64 @@ func sortStrings(s []string) {
 		}
 	}
 }
+
+// AppendIFD1 chains a thumbnail directory (IFD1) behind a TIFF block whose IFD0 ends with a zero next pointer:
+// the directory repeats tags of IFD0 with OTHER values (dimensions, orientation, compression, make), carries an
+// out-of-line resolution and points at thumbnail data. A reader reports the primary image (IFD0), so the result
+// must be the one of the block without IFD1. Returns nil if the block does not have the expected shape.
+func AppendIFD1(t []byte, order string, ifd0At int) []byte {
+	var bo binary.ByteOrder = binary.LittleEndian
+	if order == "BE" {
+		bo = binary.BigEndian
+	}
+	if ifd0At+2 > len(t) {
+		return nil
+	}
+	n := int(bo.Uint16(t[ifd0At:]))
+	np := ifd0At + 2 + 12*n
+	if np+4 > len(t) || bo.Uint32(t[np:]) != 0 {
+		return nil
+	}
+	out := append([]byte{}, t...)
+	for len(out)%2 == 1 {
+		out = append(out, 0xEE)
+	}
+	at := len(out)
+	bo.PutUint32(out[np:], uint32(at))
+	ent := func(id, typ uint16, cnt, val uint32, short bool) {
+		e := make([]byte, 12)
+		bo.PutUint16(e, id)
+		bo.PutUint16(e[2:], typ)
+		bo.PutUint32(e[4:], cnt)
+		if short {
+			bo.PutUint16(e[8:], uint16(val))
+		} else {
+			bo.PutUint32(e[8:], val)
+		}
+		out = append(out, e...)
+	}
+	const cnt = 8
+	vals := at + 2 + 12*cnt + 4
+	c := make([]byte, 2)
+	bo.PutUint16(c, cnt)
+	out = append(out, c...)
+	ent(0x0100, 3, 1, 160, true)              // ImageWidth of the thumbnail
+	ent(0x0101, 3, 1, 120, true)              // ImageLength
+	ent(0x0103, 3, 1, 6, true)                // Compression: JPEG
+	ent(0x010f, 2, 12, uint32(vals), false)   // Make (another one)
+	ent(0x0112, 3, 1, 3, true)                // Orientation (another one)
+	ent(0x011a, 5, 1, uint32(vals+12), false) // XResolution
+	ent(0x0201, 4, 1, uint32(vals+20), false) // JPEGInterchangeFormat
+	ent(0x0202, 4, 1, 40, false)              // JPEGInterchangeFormatLength
+	out = append(out, 0, 0, 0, 0)
+	out = append(out, "ThumbMaker \x00"...)
+	r := make([]byte, 8)
+	bo.PutUint32(r, 72)
+	bo.PutUint32(r[4:], 1)
+	out = append(out, r...)
+	out = append(out, 0xFF, 0xD8)
+	for i := 0; i < 36; i++ {
+		out = append(out, byte(0x30+i))
+	}
+	return append(out, 0xFF, 0xD9)
+}
